@@ -437,6 +437,9 @@ class CompositeFrontend(ConstrainedFrontend):
             return ()
 
         cores = []
+        if self._unsat:
+            # unsatisfiable because of a variable-free constraint, which no child holds
+            cores.append(false())
 
         for solver in self._solver_list:
             cores.extend(list(solver.unsat_core(extra_constraints=extra_constraints)))
